@@ -7,7 +7,7 @@
 (* Properties decided here: C04 (replies / acks / nothing, in step),       *)
 (* C07 backend side (gated request => no handler call).                    *)
 (***************************************************************************)
-EXTENDS BackendServer, TVCommon
+EXTENDS BackendServer, WireFormat, TVCommon
 
 VARIABLES s, devPF, l, viol, judged, cur
 
@@ -52,6 +52,42 @@ DispViol(e, exp) ==
 ConsumeViol(e) ==
     IF e.leftover = 0 THEN {} ELSE {"C04/consumed-wrong-length/c=" \o Str(e.c)}
 
+\* C01 (backend side): the reply bytes / descriptors encode the handler's values; the handler saw
+\* exactly the values the independent peer encoded
+SrvArgKeys(c) ==
+    CASE c \in {SET_FEATURES, SET_PROTOCOL_FEATURES} -> {"v"}
+      [] c \in {SET_VRING_NUM, SET_VRING_BASE, SET_VRING_ENABLE} -> {"index", "v"}
+      [] c \in {GET_VRING_BASE, SET_VRING_KICK, SET_VRING_CALL, SET_VRING_ERR} -> {"index"}
+      [] c = SET_VRING_ADDR -> {"index", "flags", "desc", "used", "avail", "log"}
+      [] c \in {SET_MEM_TABLE, ADD_MEM_REG, REM_MEM_REG} -> {"regions"}
+      [] c = GET_CONFIG -> {"offset", "size", "flags"}
+      [] c = SET_CONFIG -> {"offset", "size", "flags", "payload"}
+      [] c = GET_SHARED_OBJECT -> {"uuid"}
+      [] c \in {GET_INFLIGHT_FD, SET_INFLIGHT_FD} -> {"mmap_size", "mmap_offset", "num_queues", "queue_size"}
+      [] c = SET_LOG_BASE -> {"mmap_size", "mmap_offset"}
+      [] c = SET_DEVICE_STATE_FD -> {"direction", "phase"}
+      [] OTHER -> {}
+FileCodes == {SET_MEM_TABLE, ADD_MEM_REG, SET_INFLIGHT_FD, SET_LOG_BASE, SET_DEVICE_STATE_FD, SET_VRING_KICK, SET_VRING_CALL, SET_VRING_ERR}
+
+CodecViol(e, exp) ==
+    LET tag == "c=" \o Str(e.c) IN
+    IF exp.disp # "dispatch" \/ e.ncalls # 1 THEN {}
+    ELSE LET c == e.calls[1]
+             ok == e.h = "ok" /\ e.shape # "wronglen"
+             withFile == e.hv.ret_file # "none" IN
+         {"C01/backend/decoded-argument-differs/" \o tag \o "/" \o k : k \in {k \in SrvArgKeys(e.c) :
+                k \notin DOMAIN c \/ k \notin DOMAIN e.args \/ c[k] # e.args[k]}}
+         \cup (IF e.c \in FileCodes /\ (c.nfiles # e.nfds \/ c.files # e.fdids) THEN {"C01/backend/received-descriptors-differ/" \o tag} ELSE {})
+         \cup (IF exp.out = "reply" /\ e.nout = 1
+               THEN LET m == e.out[1] body == FeReplyBody(e.c, e.args, e.hv, ok, withFile) IN
+                    (IF FeReplyJudgedBytes(e.c, ok) /\ (Len(m.bytes) < Len(body) \/ SubSeq(m.bytes, 1, Len(body)) # body)
+                     THEN {"C01/backend/reply-bytes/" \o tag \o "/h=" \o e.h} ELSE {})
+                    \cup (IF e.c = CHECK_DEVICE_STATE /\ ~ok /\ IsZero(m.val) THEN {"C01/backend/failure-encoded-as-zero/" \o tag} ELSE {})
+                    \cup (IF m.nfds # FeReplyFds(e.c, ok, withFile) THEN {"C01/backend/reply-descriptor-count/" \o tag \o "/h=" \o e.h} ELSE {})
+                    \cup (IF FeReplyFds(e.c, ok, withFile) = 1 /\ m.fdids # <<e.hv.ret_file>> THEN {"C01/backend/reply-descriptor-identity/" \o tag} ELSE {})
+                    \cup (IF ~m.fd_first THEN {"C01/backend/descriptors-not-with-first-byte/" \o tag} ELSE {})
+               ELSE {})
+
 \* C07: the server always offers REPLY_ACK (bit 3), whatever the device offers
 OfferViol(e) ==
     IF e.c = GET_PROTOCOL_FEATURES /\ e.h = "ok" /\ e.nout = 1 /\ e.out[1].size = 8 /\ (e.out[1].val[1] \div 8) % 2 = 0
@@ -90,7 +126,7 @@ TVReq == /\ l <= Len(Rec) /\ Rec[l].ev = "req"
          /\ LET e == Rec[l]
                 a == [c |-> e.c, nr |-> e.nr, h |-> e.h, v |-> ToSet(e.v)]
                 exp == SrvExpect(s, a, devPF)
-                dev == OutViol(e, exp) \cup DispViol(e, exp) \cup ConsumeViol(e) \cup CrashViol(e) \cup OfferViol(e)
+                dev == OutViol(e, exp) \cup DispViol(e, exp) \cup ConsumeViol(e) \cup CrashViol(e) \cup OfferViol(e) \cup CodecViol(e, exp)
             IN IF e.cut >= 0
                THEN /\ viol' = AddViol(viol, CutViol(e), cur)
                     /\ judged' = judged + 1
